@@ -60,6 +60,10 @@ type ProductRuleConf struct {
 
 // PrisonRuleCheck check prisonRule
 func PrisonRuleCheck(conf *PrisonRuleConf) error {
+	if conf == nil {
+		return fmt.Errorf("nil prison rule")
+	}
+
 	// check nil filed
 	if err := bfe_util.CheckNilField(*conf, false); err != nil {
 		return err
